@@ -175,20 +175,37 @@ func SortAll(vals []int, emit0 func(SortRec), watchdog time.Duration) (alive boo
 		}
 	}
 	// the default ranker (natural order of the element type)
-	run("sort", "sorter-default", "nat", func(c *int) []Tagged {
+	run("sort", "sorter-default", "natlex", func(c *int) []Tagged {
 		var a = tagged(vals)
 		age.Sorter[Tagged]().Make().SortValues(a)
 		return a
 	})
-	run("sort", "Array-default", "nat", func(c *int) []Tagged {
+	run("sort", "Array-default", "natlex", func(c *int) []Tagged {
 		var x = col.Array[Tagged](notation).MakeFromArray(tagged(vals))
 		x.SortValues()
 		return x.AsArray()
 	})
-	run("sort", "List-default", "nat", func(c *int) []Tagged {
+	run("sort", "List-default", "natlex", func(c *int) []Tagged {
 		var x = col.List[Tagged](notation).MakeFromArray(tagged(vals))
 		x.SortValues()
 		return x.AsArray()
+	})
+	// a catalog in its natural order: associations rank by key, then by value;
+	// the keys are distinct pointers whose pointees may be equal, so that the
+	// value decides among them
+	run("sort", "Catalog-default", "natlex", func(c *int) []Tagged {
+		var x = col.Catalog[*int, int](notation).Make()
+		for i, v := range vals {
+			var k = new(int)
+			*k = v
+			x.SetValue(k, i+1)
+		}
+		x.SortValues()
+		var out []Tagged
+		for _, a := range x.AsArray() {
+			out = append(out, Tagged{*a.GetKey(), a.GetValue()})
+		}
+		return out
 	})
 	// reverse, once and twice; shuffle
 	for _, via := range []string{"sorter", "Array", "List", "Catalog"} {
